@@ -541,6 +541,98 @@ async fn idle_streams_many_outages(addr: SocketAddr, certs: &Certs, attempts: u3
     Ok(outages as u64)
 }
 
+/// The publisher loses its connection while it is blocked by back-pressure (a subscriber that does not read, so that a
+/// frame is stuck half-written in the publisher's writer). Once the subscriber reads again and the publisher has
+/// re-established itself, everything it publishes (and is told Ok for) must arrive.
+async fn publisher_recovers_under_backpressure(addr: SocketAddr, certs: &Certs, id: u64) -> std::result::Result<u64, V> {
+    let inc = |e: String| V("INCONCLUSIVE".into(), e);
+    let topic = format!("/c12bp/top{}", id);
+    let raw = raw_connect(addr, certs).await.map_err(|e| inc(e.to_string()))?;
+    let (mut sub, r) = raw.open(reg(1, &topic), Duration::from_secs(8)).await.map_err(|e| inc(e.to_string()))?;
+    if r != Some(Frame::Ok) {
+        return Err(inc(format!("subscriber registration answered {:?}", r)));
+    }
+    let bo = BackoffStrategy::constant().with_max_attempts(5).with_step(Duration::from_millis(40));
+    let cp = lib_client(&addr.to_string(), certs, Some(bo)).await.map_err(|e| inc(e.to_string()))?;
+    let mut publ = cp.publisher(&topic).with_encoder(StringCodec).open().await.map_err(|e| inc(e.to_string()))?;
+    let filler = "f".repeat(48 * 1024);
+    // flood until the publisher blocks (the subscriber is not reading)
+    let mut n = 0u64;
+    let mut blocked = false;
+    let t0 = Instant::now();
+    while t0.elapsed() < Duration::from_secs(40) {
+        n += 1;
+        match tokio::time::timeout(Duration::from_millis(1200), publ.send(format!("{:07}|{}", n, filler))).await {
+            Ok(Ok(())) => {}
+            Ok(Err(e)) => return Err(inc(format!("flood send failed: {e}"))),
+            Err(_) => {
+                blocked = true;
+                break;
+            }
+        }
+    }
+    if !blocked {
+        return Err(inc(format!("precondition not reached: the publisher never blocked after {} × 48 KiB", n)));
+    }
+    // the connection goes while a frame is half-written; then the subscriber starts reading
+    cp.verif_close_connection().await;
+    let arrived: Arc<Mutex<Vec<u64>>> = Arc::new(Mutex::new(vec![]));
+    let a2 = arrived.clone();
+    let reader = tokio::spawn(async move {
+        while let Some(Ok(f)) = sub.next().await {
+            if let Frame::Message(m) = f {
+                if let Ok(num) = String::from_utf8_lossy(&m.message[..7.min(m.message.len())]).parse::<u64>() {
+                    a2.lock().unwrap().push(num);
+                }
+            }
+        }
+    });
+    // publish again: small numbered messages from 9 000 001 on
+    let mut results: Vec<(u64, bool, String)> = vec![];
+    for k in 0..40u64 {
+        let num = 9_000_001 + k;
+        let r = tokio::time::timeout(Duration::from_secs(30), publ.send(format!("{:07}|after", num))).await;
+        match r {
+            Ok(Ok(())) => results.push((num, true, String::new())),
+            Ok(Err(e)) => {
+                if is_too_many(&e) {
+                    reader.abort();
+                    return Err(V("publisher/gave-up-although-server-reachable/back-pressure".into(), format!("send #{} after the cut reported too-many-retries although the server was reachable", k + 1)));
+                }
+                results.push((num, false, e.to_string()))
+            }
+            Err(_) => {
+                reader.abort();
+                return Err(V("publisher/hangs-after-cut/back-pressure".into(), format!("send #{} did not return within 30 s after the connection was cut under back-pressure", k + 1)));
+            }
+        }
+        tokio::time::sleep(Duration::from_millis(25)).await;
+    }
+    tokio::time::sleep(Duration::from_millis(1500)).await;
+    reader.abort();
+    let got = arrived.lock().unwrap().clone();
+    let first_ok = results.iter().position(|r| r.1);
+    let Some(first_ok) = first_ok else {
+        return Err(V("publisher/not-recovered/back-pressure".into(), format!("none of 40 sends after the cut succeeded, e.g. {:?}", results.first().map(|r| r.2.clone()))));
+    };
+    // the send that met the broken connection may lose its item; everything told Ok after it must arrive
+    let lost: Vec<u64> = results.iter().skip(first_ok + 1).filter(|r| r.1 && !got.contains(&r.0)).map(|r| r.0).collect();
+    if !lost.is_empty() {
+        return Err(V(
+            "publisher/lost-after-recovery/back-pressure".into(),
+            format!(
+                "the publisher lost its connection while blocked by back-pressure ({} × 48 KiB in flight); afterwards send() returned Ok for {} messages, of which {} never reached the subscriber (first lost {}, first delivered {:?})",
+                n,
+                results.iter().filter(|r| r.1).count(),
+                lost.len(),
+                lost[0],
+                got.iter().find(|x| **x >= 9_000_001)
+            ),
+        ));
+    }
+    Ok(results.iter().filter(|r| r.1).count() as u64)
+}
+
 /// A publisher that publishes in bursts (`feed()` × n + `flush()`, or `send_all`), so that it meets the dead connection
 /// with more than the 8 KiB its framed writer buffers: it must re-establish itself like any other, and what it
 /// publishes after that must arrive.
@@ -1205,7 +1297,7 @@ pub fn run_c14(rep: &mut StageReport, tier: &str, _seed: u64) {
                 continue;
             }
             let comp = [None, Some("zstd"), Some("lz4"), Some("gzip")][k % 4];
-            let cfg = super::c03::Cfg { codec: "bytes", compression: comp.map(|s| s.to_string()), batch: Some((n as u32, 3_600_000)), count: n, payload: each, sizes: None, compressible: false, id: 94_000 + k as u64 };
+            let cfg = super::c03::Cfg { codec: "bytes", compression: comp.map(|s| s.to_string()), batch: Some((n as u32, 3_600_000)), count: n, payload: each, sizes: None, compressible: false, precompressed: false, id: 94_000 + k as u64 };
             let r = match tokio::time::timeout(Duration::from_secs(120), super::c03::run_bytes_cfg(server.endpoint(), certs.clone(), cfg, k as u64)).await {
                 Ok(super::c03::Outcome::Held { delivered }) => Ok(delivered as u64),
                 Ok(super::c03::Outcome::Violated { sig, detail }) => Err((format!("wire-composition/batched/{}", sig), format!("batch of {} × {} incompressible bytes, compression {:?}: {}", n, each, comp, detail))),
@@ -2114,6 +2206,15 @@ pub fn run(rep: &mut StageReport, tier: &str, _seed: u64) {
                 Err(_) => Err(V("INCONCLUSIVE".into(), "watchdog: idle-outages scenario did not finish in 300 s".into())),
             };
             out.push(("recovery/idle-streams".to_string(), cfg, r));
+        }
+        // publisher cut while blocked by back-pressure
+        {
+            let cfg = json!({"role": "publisher", "state_at_cut": "blocked by back-pressure, a frame half-written", "backoff": "constant 40 ms", "max_attempts": 5});
+            let r = match tokio::time::timeout(Duration::from_secs(200), publisher_recovers_under_backpressure(server.addr, &certs.0, 1)).await {
+                Ok(r) => r,
+                Err(_) => Err(V("INCONCLUSIVE".into(), "watchdog: back-pressure scenario did not finish in 200 s".into())),
+            };
+            out.push(("recovery/publisher-under-back-pressure".to_string(), cfg, r));
         }
         // publishers that publish in bursts larger than the writer's buffer
         for (k, use_send_all) in [false, true].into_iter().enumerate() {
